@@ -43,7 +43,33 @@ DRIVERS = {
     'taylor': [_s('taylor with raising function', lambda mp: mp.taylor(_raiser(2), 0, 3))],
     'odefun': [_s('odefun with raising function', lambda mp: mp.odefun(_raiser(2), 0, 1)(1))],
     'get_nodes': [_s('quadgl with raising integrand', lambda mp: mp.quadgl(_raiser(2), [0, 1]))],
+    'PrecisionManager': [
+        _s('with mp.workdps(20): pass', lambda mp: _with(mp.workdps(20), lambda: None)),
+        _s('with mp.extradps(5): pass', lambda mp: _with(mp.extradps(5), lambda: None)),
+        _s('with mp.workprec(200): raise', lambda mp: _with(mp.workprec(200), lambda: 1 / 0)),
+        _s('with mp.extraprec(7): pass', lambda mp: _with(mp.extraprec(7), lambda: None)),
+        _s('mp.workdps(20)(f)() decorator form', lambda mp: mp.workdps(20)(lambda: 1)()),
+        _s('mp.extraprec(20)(f)() raising', lambda mp: mp.extraprec(20)(lambda: 1 / 0)())],
+    'interpolant': [_s('odefun built at one precision and evaluated at another', lambda mp: _odefun_stale(mp))],
+    'f_wrapped': [
+        _s('iv.sinc("abc") (argument conversion fails)', lambda mp: __import__('mpmath').iv.sinc('abc')),
+        _s('mp.sinc("abc")', lambda mp: mp.sinc('abc')),
+        _s('iv.erf(1)', lambda mp: __import__('mpmath').iv.erf(1))],
 }
+
+
+def _with(cm, thunk):
+    with cm:
+        return thunk()
+
+
+def _odefun_stale(mp):
+    p = mp.prec
+    mp.prec = 53
+    f = mp.odefun(lambda x, y: y, 0, 1)
+    mp.prec = p
+    return f(1)
+
 
 
 def _with_patch(mp, name, repl, thunk):
